@@ -65,7 +65,7 @@ def feature_of_ops(ops, why):
 def validate_trace(path, name, timeout=900):
     cfg = os.path.join(vlib.SPEC, "GcHeapTrace.cfg")
     res = vlib.run_tlc("GcHeapTrace.tla", cfg, name, workers=1, timeout=timeout, heap="4g",
-                       java="-Xss1g -Dtlc2.tool.queue.IStateQueue=StateDeque", env={"TRACE": path})
+                       java="-Xss1g -Dtlc2.tool.queue.IStateQueue=StateDeque", env={"TRACE": path}, accept=(0, 10, 12, 13))
     matched = total = None; diffs = []
     for l in res.lines:
         if l.startswith('<<"MATCHED"'):
